@@ -23,8 +23,10 @@ var lexFrag = map[string]string{
 var lexEnt = map[string]string{
 	"local": "local ent = 1", "unused": "local ent = 1", "lfunc": "local function ent() end", "global": "ent = 1", "gfunc": "function ent() end",
 	"param": "local function fn(ent) return ent end", "forvar": "for ent = 1, 2 do print(ent) end",
+	"attr": "local ent <const> = 1", "attr2": "local zq <const>, ent <const> = 1, 2", "local2": "local zq, ent = 1, 2",
+	"forin2": "for zq, ent in pairs({}) do print(ent) end",
 }
-var lexFollow = map[string]bool{"local": true, "lfunc": true, "global": true, "gfunc": true}
+var lexFollow = map[string]bool{"local": true, "lfunc": true, "global": true, "gfunc": true, "attr": true, "attr2": true, "local2": true}
 var lexEOL = map[string]string{"LF": "\n", "CRLF": "\r\n", "CR": "\r"}
 
 type lxPos struct {
@@ -258,7 +260,7 @@ func lxJudge(c *Ctx, j *Job, res *proto.Result) {
 }
 
 func checkC04(c *Ctx) {
-	c.Rep.Rule = "LuaLex.tla computes the LSP position of every occurrence of an identifier that follows up to MaxPrefix fragments on its line (string literals with escapes, BMP and astral characters, line continuation; long brackets incl. multi-line; long comments incl. multi-line and non-ASCII; tabs), for three line-ending styles and seven kinds of entity; TLC enumerates all layouts; for each the real server is asked definition, references, highlight, rename at every occurrence, the outline, the workspace symbols and the diagnostics, and every range must lie in the document, have start <= end and, for a named entity, cover exactly the identifier at the position TLC computed; distinct = distinct layouts"
+	c.Rep.Rule = "LuaLex.tla computes the LSP position of every occurrence of an identifier that follows up to MaxPrefix fragments on its line (string literals with escapes, BMP and astral characters, line continuation; long brackets incl. multi-line; long comments incl. multi-line and non-ASCII; tabs), for three line-ending styles and eleven kinds of entity (plain, unused, attributed and second-in-list locals, local and global functions, globals, parameters, numeric and generic loop variables); TLC enumerates all layouts; for each the real server is asked definition, references, highlight, rename at every occurrence, the outline, the workspace symbols and the diagnostics, and every range must lie in the document, have start <= end and, for a named entity, cover exactly the identifier at the position TLC computed; distinct = distinct layouts"
 	c.Rep.Assumptions = []string{
 		"the fragment texts are a table in the harness; at run time every reference position is checked against the harness's own LSP slicing of the rendered text (a disagreement aborts the run as a tooling fault)",
 		"outline ranges are only required to be well-formed and inside the document here (containment of the identifier is C19's subject)",
@@ -268,7 +270,7 @@ func checkC04(c *Ctx) {
 	if c.Thorough() {
 		mp = 3
 	}
-	cfg := fmt.Sprintf("CONSTANTS\n  MaxPrefix = %d\n  Frags = %s\n  Entities = {\"local\",\"unused\",\"lfunc\",\"global\",\"gfunc\",\"param\",\"forvar\"}\n  Endings = {\"LF\",\"CRLF\",\"CR\"}\nINIT Init\nNEXT Next\nINVARIANTS ColNonNeg Emit\nCHECK_DEADLOCK FALSE\n", mp, frags)
+	cfg := fmt.Sprintf("CONSTANTS\n  MaxPrefix = %d\n  Frags = %s\n  Entities = {\"local\",\"unused\",\"lfunc\",\"global\",\"gfunc\",\"param\",\"forvar\",\"attr\",\"attr2\",\"local2\",\"forin2\"}\n  Endings = {\"LF\",\"CRLF\",\"CR\"}\nINIT Init\nNEXT Next\nINVARIANTS ColNonNeg Emit\nCHECK_DEADLOCK FALSE\n", mp, frags)
 	if c.Replay != "" {
 		raw, err := loadReplayCase(c.Replay)
 		if err != nil {
